@@ -87,22 +87,6 @@ Fixpoint band_results (lib : list amp) (redfa : list string) (prev : neigh) (max
       :: match one with Ok _ => band_results lib redfa prev maxl ext rest | Err _ => [] end
   end.
 
-(* smallest margin met by the preselection filters *)
-Fixpoint presel_crit (lib : list amp) (groups : list mgroup) (ext : Q) (restr0 sel : list string)
-                     (bts : list (Q * Q * Q * Q)) : Q :=
-  match bts with
-  | [] => 1
-  | (bmin, bmax, gain, pt) :: rest =>
-      let cands := band_cands lib groups sel bmin bmax in
-      Qmin (select_crit true gain pt ext cands)
-           (match acc_gain true gain cands with
-            | Ok acc => presel_crit lib groups ext restr0
-                          (filter (fun m => smem m (flat_map (groups_of groups) (map a_name (acc_power ext gain pt acc))))
-                                  restr0) rest
-            | Err _ => 1
-            end)
-  end.
-
 Definition run_multi (lib : list amp) (groups : list mgroup) (maxl ext : Q)
                      (c : anode * neigh * neigh * list (Q * Q * Q * Q * list (string * Q))) : string :=
   let '(nd, prev, next, btn) := c in
